@@ -2,7 +2,7 @@
 From Coq Require Import List NArith Bool String.
 Import ListNotations.
 From Indi Require Import Base.Sx Msg.Registry Msg.Equality Msg.Model Msg.Codec Driver.Model Driver.Props
-  Generated.RegistryData Generated.RegistryOk.
+  Generated.RegistryData Generated.RegistryOk Driver.EmitWf.
 
 (* For EVERY device state (any groups / properties / elements / values / flags), with
    property names unique: a request without a property name elicits, in order, exactly
@@ -53,3 +53,13 @@ Theorem constructible_emitted_message_reads_back : forall m,
   msg_from_xml live_registry (msg_to_xml m) = Some (norm_msg m).
 Proof. intros m. exact (roundtrip_tree live_registry m (eq_refl : nodup_strb (map ptag (rparts live_registry)) = true)). Qed.
 Print Assumptions constructible_emitted_message_reads_back.
+
+(* the answer for a disabled property (a delProperty naming it) IS constructible, for every
+   device and every property, whatever their names are - so the library's own parser reads
+   it back unchanged; no hypothesis on the message is left (Driver/EmitWf.v) *)
+Theorem the_answer_for_a_disabled_property_reads_back : forall d g v,
+  vec_on g v = false ->
+  wfb live_registry (def_msg d g v) = true /\
+  msg_from_xml live_registry (msg_to_xml (def_msg d g v)) = Some (def_msg d g v).
+Proof. intros d g v H. split; [exact (del_msg_wf d g v H) | exact (del_msg_reads_back d g v H)]. Qed.
+Print Assumptions the_answer_for_a_disabled_property_reads_back.
